@@ -25,6 +25,7 @@ def run(ck):
                        "ASan/UBSan observe the real parser"]
     for cfg in MC:
         ck.mc("MCTokGrammar", cfg, workers=8, xmx="12g", timeout=1800)
+    ck.mc_must_fail("MCTokGrammar", "C01_asfound_true_is_false.cfg", workers=4, timeout=600)      # Accepts is not vacuous
     exe = vlib.build("san", vlib.harness_sources(), "vh")
     stride = 1 if thorough else 29
     jobs = [("V:generated-valid-documents", ["tok", "valid-drive"], 12000 if thorough else 700),
